@@ -160,7 +160,8 @@ def data_wellformed(tier, seed):
                 if charge and abs(q - ref.atoms.charge[i] / uc.parse(lu['charge'])) > F.ftol(ff, q):
                     msgs.append('atom %d charge %r != %r' % (i, q, ref.atoms.charge[i]))
                 srel = (xyz - ow).dot(_np.linalg.inv(Vw))
-                if _np.any(srel < -1e-6) or _np.any(srel > 1 + 1e-6):
+                rt = 1e-6 + 8 * tol * L / float(_np.min(_np.abs(_np.diag(Vw))))      # printed coordinates and bounds are each exact to the format's last place only
+                if _np.any(srel < -rt) or _np.any(srel > 1 + rt):
                     msgs.append('atom %d lies outside the written bounds (relative %r)' % (i, srel.round(6).tolist()))
                 orig = xyz + flags.dot(Vw)
                 if not F.close(orig, ref.atoms.pos[i], tol * 60 * L):
